@@ -171,6 +171,8 @@ fn features_proc(tf: &TextFile, bsz: u64, verdict: &Verdict, sym: &str) -> serde
             e <= blk0
         })
         .count();
+    let nul_n = tf.data.iter().take_while(|&&b| b == 0).count();
+    let nul_prefix = if nul_n == 0 { "0" } else if nul_n < 64 { "1-63" } else if nul_n < 128 { "64-127" } else { "ge128" };
     json!({
         "level":"processor",
         "symptom": symptom_class(sym),
@@ -179,6 +181,7 @@ fn features_proc(tf: &TextFile, bsz: u64, verdict: &Verdict, sym: &str) -> serde
         "first_head_line_inside_block0": tf.first_head_line_end() <= blk0,
         "block0_ge_8096": blk0 >= 8096,
         "complete_head_lines_in_block0": std::cmp::min(heads_in_blk0, 3),
+        "nul_prefix": nul_prefix,
     })
 }
 
@@ -356,6 +359,19 @@ pub fn run(prop: &str, tier: &str) {
             .map(|j| MsgSpec { ms: (EPOCH_2000 + j as i64) * 1000, body: { let mut b = vec![b' ']; b.extend(fill(linelen - 27, j)); b }, cont: vec![] })
             .collect();
         pf.push((8192, build(&[], &specs, b"\n", true)));
+    }
+    // preambles of N filler bytes (NUL and others) before the first timestamped line; block sizes around N are added by proc_bszs via bsz0
+    {
+        let specs: Vec<MsgSpec> = (0..3).map(|j| MsgSpec { ms: (EPOCH_2000 + j as i64) * 1000, body: b" m".to_vec(), cont: if j == 1 { vec![b"c".to_vec()] } else { vec![] } }).collect();
+        let ns: Vec<usize> = if quick { vec![1, 63, 64, 100, 127, 128, 129, 200, 1000] } else { vec![1, 2, 31, 63, 64, 65, 100, 126, 127, 128, 129, 130, 191, 192, 200, 255, 256, 257, 1000, 5000, 70000] };
+        for n in ns {
+            for filler in [0u8, b' ', 0xff, b'x'] {
+                let f = build(&[vec![filler; n]], &specs, b"\n", true);
+                for b0 in [n as u64, n as u64 + 40] {
+                    pf.push((std::cmp::max(b0, 64), f.clone()));
+                }
+            }
+        }
     }
     rep.extra("processor_level_files", json!(pf.len()));
     part_processor(&rep, prop, &pf, &dir);
